@@ -3572,6 +3572,7 @@ func ruleLayoutKeepsCharactersEvaluated(c *eng.Ctx) {
 		}
 		n, bad, skipped := 0, "", ""
 		perPage := map[string]string{}
+		twice := map[string]string{}
 		for _, pn := range names {
 			bad = ""
 			ev := eng.NewEvaluator()
@@ -3661,7 +3662,13 @@ func ruleLayoutKeepsCharactersEvaluated(c *eng.Ctx) {
 										break
 									}
 								}
-								bad = fmt.Sprintf("page %q: the analysis elements do not hold the characters of the fragments once each (%s)", pn, what)
+								if lostCharacters(in, joined) == "" {
+									// nothing is lost, some text is there twice: an obligation of its own, so that a
+									// recorded finding of this kind does not hide lost text on the same page
+									twice[pn] = fmt.Sprintf("page %q: the analysis elements hold text of the fragments more than once (%s)", pn, what)
+								} else {
+									bad = fmt.Sprintf("page %q: the analysis elements do not hold the characters of the fragments once each (%s; lost: %q)", pn, what, lostCharacters(in, joined))
+								}
 							}
 						}
 					}
@@ -3698,6 +3705,9 @@ func ruleLayoutKeepsCharactersEvaluated(c *eng.Ctx) {
 				continue
 			}
 			c.Check(msg == "", R, d.detect+"#characters@"+pn, det.Pos(), "the characters of the page come out once each", "the detector loses, invents or duplicates text: "+msg)
+			if strings.HasSuffix(d.detect, "Analyze") {
+				c.Check(twice[pn] == "", R, d.detect+"#elements-hold-text-once@"+pn, det.Pos(), "no text of the page is in the elements twice", "the element tree repeats text: "+twice[pn])
+			}
 		}
 	}
 	_ = evaluatedAny
@@ -3705,6 +3715,25 @@ func ruleLayoutKeepsCharactersEvaluated(c *eng.Ctx) {
 
 // ---------------------------------------------------------------------------------------------------------------
 // R9.12 the plain-text assembly of the content-stream extractor, read on fragment sets.
+
+// lostCharacters: the non-white-space characters of in that out does not hold (as multisets), at most 40 of them.
+func lostCharacters(in, out string) string {
+	have := map[rune]int{}
+	for _, r := range nonSpace(out) {
+		have[r]++
+	}
+	lost := ""
+	for _, r := range nonSpace(in) {
+		if have[r] > 0 {
+			have[r]--
+			continue
+		}
+		if len(lost) < 40 {
+			lost += string(r)
+		}
+	}
+	return lost
+}
 
 // R9.12 [C09]
 func ruleExtractorTextKeepsCharactersEvaluated(c *eng.Ctx) {
@@ -4871,4 +4900,858 @@ func ruleObjectStreamsEvaluated(c *eng.Ctx) {
 		return
 	}
 	c.Check(bad == "", R, "core.(*ObjectStream).GetObjectByIndex#hostile", pos, fmt.Sprintf("%d calls evaluated", n), "an object stream from the file brings the reader down or is answered wrongly: "+bad)
+}
+
+// ---------------------------------------------------------------------------------------------------------------
+// R3.15 an extractor that is cleared and used again neither changes what it handed out nor remembers it.
+
+// dumpVal writes an evaluator value out in full (pointers followed to depth 6).
+func dumpVal(v any, depth int) string {
+	if depth > 6 {
+		return "…"
+	}
+	switch x := v.(type) {
+	case nil:
+		return "nil"
+	case *eng.EPtr:
+		if x == nil {
+			return "nil"
+		}
+		return "&" + dumpVal(x.Get(), depth+1)
+	case *eng.EStruct:
+		parts := make([]string, len(x.F))
+		for i, f := range x.F {
+			parts[i] = dumpVal(f, depth+1)
+		}
+		return "{" + strings.Join(parts, ",") + "}"
+	case *eng.ESlice:
+		parts := make([]string, len(x.L))
+		for i, l := range x.L {
+			parts[i] = dumpVal(l.V, depth+1)
+		}
+		return "[" + strings.Join(parts, ",") + "]"
+	case *eng.EIface:
+		return dumpVal(x.V, depth+1)
+	case *eng.EMap:
+		var parts []string
+		for k, e := range x.M {
+			parts = append(parts, fmt.Sprintf("%v:%s", k, dumpVal(e, depth+1)))
+		}
+		sort.Strings(parts)
+		return "map[" + strings.Join(parts, ",") + "]"
+	case float64:
+		return fmt.Sprintf("%g", x)
+	}
+	return fmt.Sprintf("%v", v)
+}
+
+// R3.15 [C03]
+func ruleGraphicsExtractorReuseEvaluated(c *eng.Ctx) {
+	const R = "R3.15-GRAPHICS-EXTRACTOR-REUSE-EVALUATED"
+	c.Rule(R, "graphicsstate.GraphicsExtractor, evaluated on two content streams of stroked lines and rectangles extracted one after the other with Clear in between: the lines and rectangles handed out after the first stream are unchanged after the second (the caller still holds them), and what the reused extractor gives for the second stream is what a new extractor gives for it", 1, 0)
+	mk := c.P.FuncExact("graphicsstate.NewGraphicsExtractor")
+	ex := c.P.FuncExact("graphicsstate.(*GraphicsExtractor).ExtractFromBytes")
+	clr := c.P.FuncExact("graphicsstate.(*GraphicsExtractor).Clear")
+	lines := c.P.FuncExact("graphicsstate.(*GraphicsExtractor).GetLines")
+	rects := c.P.FuncExact("graphicsstate.(*GraphicsExtractor).GetRectangles")
+	if mk == nil || ex == nil || clr == nil || lines == nil || rects == nil || len(mk.Params) != 0 || len(ex.Params) != 2 {
+		c.Ok(R, "graphicsstate.(*GraphicsExtractor).Clear", token.NoPos, "extractor entry points not found: not evaluated")
+		return
+	}
+	s1 := []byte("q 1 w 10 10 m 200 10 l S 10 20 m 10 300 l S 50 50 100 40 re S 0 0 1 RG 20 400 m 300 400 l S Q\n")
+	s2 := []byte("q 2 w 5 500 m 400 500 l S 300 300 20 20 re S 7 7 m 7 90 l S Q\n")
+	ev := eng.NewEvaluator()
+	ev.Steps = 6000000
+	skipped, bad := "", ""
+	call := func(fn *ssa.Function, args ...any) any {
+		if skipped != "" || bad != "" {
+			return nil
+		}
+		got, err := ev.Call(fn, args, 0)
+		if err != nil {
+			if err.Panic {
+				bad = eng.FuncName(fn) + ": " + err.Msg
+			} else {
+				skipped = eng.FuncName(fn) + ": " + err.Msg
+			}
+			return nil
+		}
+		return got
+	}
+	ge := call(mk)
+	call(ex, ge, eng.BytesOf(s1))
+	l1, r1 := call(lines, ge), call(rects, ge)
+	held := dumpVal(l1, 0) + dumpVal(r1, 0)
+	call(clr, ge)
+	call(ex, ge, eng.BytesOf(s2))
+	again := dumpVal(call(lines, ge), 0) + dumpVal(call(rects, ge), 0)
+	ge2 := call(mk)
+	call(ex, ge2, eng.BytesOf(s2))
+	fresh := dumpVal(call(lines, ge2), 0) + dumpVal(call(rects, ge2), 0)
+	if skipped != "" {
+		c.Ok(R, "graphicsstate.(*GraphicsExtractor).Clear", clr.Pos(), "not evaluated: "+skipped)
+		return
+	}
+	if bad == "" {
+		if sl, ok := l1.(*eng.ESlice); !ok || len(sl.L) < 3 {
+			c.Ok(R, "graphicsstate.(*GraphicsExtractor).Clear", clr.Pos(), "not evaluated: the first stream does not give three lines")
+			return
+		}
+		if now := dumpVal(l1, 0) + dumpVal(r1, 0); now != held {
+			bad = "the lines and rectangles handed out for the first stream changed when the second was extracted: they share storage with the extractor"
+		} else if again != fresh {
+			bad = "the reused extractor answers the second stream differently from a new one: something of the first stream is still in it"
+		}
+	}
+	c.Check(bad == "", R, "graphicsstate.(*GraphicsExtractor).Clear#reuse", clr.Pos(), "held results unchanged; reused and new extractor agree", bad)
+}
+
+// ---------------------------------------------------------------------------------------------------------------
+// R7.15 the font that decodes a shown string is the one the graphics state names.
+
+// R7.15 [C07, C01]
+func ruleFontFollowsGraphicsStateEvaluated(c *eng.Ctx) {
+	const R = "R7.15-FONT-FOLLOWS-GRAPHICS-STATE-EVALUATED"
+	c.Rule(R, "text.(*Extractor).ExtractFromBytes, evaluated with two registered fonts that decode the same codes differently (F1 by its base encoding, F2 by a ToUnicode CMap) on content streams that select F2 inside q ... Q and go on showing text after the Q, select fonts in turn, and restore twice: every fragment's text is the decoding of its codes by the font the fragment names, and the fragment names the font the graphics state holds at that point of the stream", 1, 0)
+	newEx := c.P.FuncExact("text.NewExtractor")
+	reg := c.P.FuncExact("text.(*Extractor).RegisterFont")
+	regP := c.P.FuncExact("text.(*Extractor).RegisterParsedFont")
+	ex := c.P.FuncExact("text.(*Extractor).ExtractFromBytes")
+	newFont := c.P.FuncExact("font.NewFont")
+	parse := c.P.FuncExact("font.ParseToUnicodeCMap")
+	streamT, fontT, fragT := c.P.NamedType("core", "Stream"), c.P.NamedType("font", "Font"), c.P.NamedType("text", "TextFragment")
+	if newEx == nil || reg == nil || regP == nil || ex == nil || newFont == nil || parse == nil || streamT == nil || fontT == nil || fragT == nil {
+		c.Ok(R, "text.(*Extractor).ExtractFromBytes", token.NoPos, "extractor or font entry points not found: not evaluated")
+		return
+	}
+	prog := "/CIDInit /ProcSet findresource begin\n12 dict begin\nbegincmap\n/CMapType 2 def\n1 begincodespacerange\n<00> <FF>\nendcodespacerange\n2 beginbfchar\n<41> <03A9>\n<42> <0416>\nendbfchar\nendcmap\nend\nend\n"
+	type sc struct {
+		name, stream string
+		want         [][2]string // font name, text
+	}
+	cases := []sc{
+		{"a font selected inside q ... Q", "BT /F1 12 Tf 10 700 Td (AB) Tj ET q BT /F2 12 Tf 10 680 Td (AB) Tj ET Q BT 10 660 Td (AB) Tj ET",
+			[][2]string{{"F1", "AB"}, {"F2", "ΩЖ"}, {"F1", "AB"}}},
+		{"fonts selected in turn", "BT /F2 10 Tf 10 700 Td (A) Tj /F1 10 Tf 0 -12 Td (A) Tj /F2 10 Tf 0 -12 Td (B) Tj ET",
+			[][2]string{{"F2", "Ω"}, {"F1", "A"}, {"F2", "Ж"}}},
+		{"two levels restored", "BT /F2 9 Tf 10 700 Td (B) Tj ET q BT /F1 9 Tf 10 680 Td (B) Tj ET q BT /F2 9 Tf 10 660 Td (A) Tj ET Q BT 10 640 Td (A) Tj ET Q BT 10 620 Td (A) Tj ET",
+			[][2]string{{"F2", "Ж"}, {"F1", "B"}, {"F2", "Ω"}, {"F1", "A"}, {"F2", "Ω"}}},
+	}
+	fi := func(name string) int {
+		st, _ := fragT.Underlying().(*types.Struct)
+		for i := 0; st != nil && i < st.NumFields(); i++ {
+			if st.Field(i).Name() == name {
+				return i
+			}
+		}
+		return -1
+	}
+	ti, ni := fi("Text"), fi("FontName")
+	if ti < 0 || ni < 0 {
+		c.Ok(R, "text.(*Extractor).ExtractFromBytes", ex.Pos(), "not evaluated: fragments have no Text/FontName")
+		return
+	}
+	for _, t := range cases {
+		ev := eng.NewEvaluator()
+		ev.Steps = 8000000
+		ev.MaxDepth = 30
+		skipped, bad := "", ""
+		call := func(fn *ssa.Function, args ...any) any {
+			if skipped != "" || bad != "" {
+				return nil
+			}
+			got, err := ev.Call(fn, args, 0)
+			if err != nil {
+				if err.Panic {
+					bad = eng.FuncName(fn) + ": " + err.Msg
+				} else {
+					skipped = eng.FuncName(fn) + ": " + err.Msg
+				}
+				return nil
+			}
+			return got
+		}
+		e := call(newEx)
+		// the extractor keys its fonts by the resource name with the solidus; both spellings are registered
+		call(reg, e, "F1", "Helvetica", "Type1")
+		call(reg, e, "/F1", "Helvetica", "Type1")
+		f2 := call(newFont, "/F2", "Times-Roman", "Type1")
+		st := eng.ZeroOf(streamT).(*eng.EStruct)
+		eng.SetField(st, streamT, "Dict", &eng.EMap{M: map[any]any{}})
+		eng.SetField(st, streamT, "Data", eng.BytesOf([]byte(prog)))
+		loc := &eng.ELoc{V: st}
+		sp := &eng.EPtr{Get: func() any { return loc.V }, Set: func(x any) { loc.V = x }, Loc: loc}
+		cm := call(parse, sp)
+		if tup, ok := cm.(eng.ETuple); ok && len(tup) == 2 && tup[1] == nil {
+			if fp, ok := f2.(*eng.EPtr); ok {
+				if fs, ok := fp.Get().(*eng.EStruct); ok && eng.SetField(fs, fontT, "ToUnicodeCMap", tup[0]) {
+					call(regP, e, "F2", f2)
+					call(regP, e, "/F2", f2)
+				} else if skipped == "" {
+					skipped = "font.Font has no ToUnicodeCMap field"
+				}
+			}
+		} else if skipped == "" && bad == "" {
+			skipped = "the CMap program is not read"
+		}
+		got := call(ex, e, eng.BytesOf([]byte(t.stream)))
+		key := "text.(*Extractor).ExtractFromBytes#" + t.name
+		if skipped != "" {
+			c.Ok(R, key, ex.Pos(), "not evaluated: "+skipped)
+			continue
+		}
+		if bad == "" {
+			tup, ok := got.(eng.ETuple)
+			var frs *eng.ESlice
+			if ok && len(tup) == 2 {
+				frs, _ = tup[0].(*eng.ESlice)
+			}
+			if frs == nil || (ok && tup[1] != nil) {
+				c.Ok(R, key, ex.Pos(), "not evaluated: the stream is not extracted")
+				continue
+			}
+			if len(frs.L) != len(t.want) {
+				bad = fmt.Sprintf("%d fragments for %d shown strings", len(frs.L), len(t.want))
+			}
+			for i := 0; bad == "" && i < len(frs.L); i++ {
+				fs, _ := frs.L[i].V.(*eng.EStruct)
+				if fs == nil {
+					continue
+				}
+				name, _ := fs.F[ni].(string)
+				txt, _ := fs.F[ti].(string)
+				name = strings.TrimPrefix(name, "/")
+				if name != t.want[i][0] {
+					bad = fmt.Sprintf("string %d is attributed to font %s, the graphics state holds %s there", i+1, name, t.want[i][0])
+				} else if txt != t.want[i][1] {
+					bad = fmt.Sprintf("string %d, shown in %s, comes out as %q; that font decodes it to %q", i+1, name, txt, t.want[i][1])
+				}
+			}
+		}
+		c.Check(bad == "", R, key, ex.Pos(), fmt.Sprintf("%d strings decoded by the font in force", len(t.want)), "a shown string is decoded by a font other than the one the graphics state names: "+bad)
+	}
+}
+
+// ---------------------------------------------------------------------------------------------------------------
+// R17.18 the worksheet grid is rectangular, or everything that reads it clips by the row.
+
+// R17.18 [C17, C02]
+func ruleGridRectangular(c *eng.Ctx) {
+	const R = "R17.18-GRID-RECTANGULAR"
+	c.Rule(R, "every row of a worksheet grid (a []Cell stored into an element of Sheet.Rows in package xlsx) is allocated with a length that does not change from row to row (a value computed before the loop that fills the rows); where the length does vary, every reader of the grid in the package indexes a row only under a comparison with the length of that row: Document() and the table builder walk every row up to the sheet's content bounds, so a narrower row is an index out of range", 1, 0)
+	n := 0
+	ragged := ""
+	var raggedPos token.Pos
+	for _, fn := range c.P.ModuleFuncs() {
+		if fn.Blocks == nil || fn.Pkg == nil || eng.ShortPath(fn.Pkg.Pkg.Path()) != "xlsx" {
+			continue
+		}
+		eng.Instrs(fn, true, func(in ssa.Instruction) {
+			st, ok := in.(*ssa.Store)
+			if !ok {
+				return
+			}
+			ia, ok := st.Addr.(*ssa.IndexAddr)
+			if !ok {
+				return
+			}
+			fr, ok := eng.LoadOfField(ia.X)
+			if !ok || fr.Field != "Rows" {
+				return
+			}
+			mk, ok := st.Val.(*ssa.MakeSlice)
+			if !ok {
+				return
+			}
+			n++
+			h := innermostLoopOf(st.Block())
+			var invariant func(v ssa.Value, d int) bool
+			invariant = func(v ssa.Value, d int) bool {
+				if d > 6 {
+					return false
+				}
+				switch x := v.(type) {
+				case *ssa.Const, *ssa.Parameter:
+					return true
+				case *ssa.BinOp:
+					return invariant(x.X, d+1) && invariant(x.Y, d+1)
+				case *ssa.Convert:
+					return invariant(x.X, d+1)
+				}
+				in, ok := v.(ssa.Instruction)
+				if !ok || in.Block() == nil {
+					return false
+				}
+				return h == nil || !loopBody(h)[in.Block()]
+			}
+			key := fmt.Sprintf("%s#row-allocation%d", eng.FuncName(fn), n)
+			if invariant(mk.Len, 0) {
+				c.Ok(R, key, st.Pos(), "every row is allocated with the same length")
+			} else {
+				ragged, raggedPos = key, st.Pos()
+			}
+		})
+	}
+	if n == 0 {
+		c.Ok(R, "xlsx#rows", token.NoPos, "no row allocation stored into Sheet.Rows found: not evaluated")
+		return
+	}
+	if ragged == "" {
+		return
+	}
+	// rows of different lengths: every reader must clip by the row
+	bad := ""
+	var badPos token.Pos
+	for _, fn := range c.P.ModuleFuncs() {
+		if fn.Blocks == nil || fn.Pkg == nil || eng.ShortPath(fn.Pkg.Pkg.Path()) != "xlsx" || bad != "" {
+			continue
+		}
+		eng.Instrs(fn, true, func(in ssa.Instruction) {
+			ia, ok := in.(*ssa.IndexAddr)
+			if !ok || bad != "" {
+				return
+			}
+			// the indexed value is an element of Rows
+			var row ssa.Value
+			if u, ok := ia.X.(*ssa.UnOp); ok && u.Op == token.MUL {
+				if inner, ok := u.X.(*ssa.IndexAddr); ok {
+					if fr, ok := eng.LoadOfField(inner.X); ok && fr.Field == "Rows" {
+						row = ia.X
+					}
+				}
+			}
+			if row == nil {
+				return
+			}
+			if _, isInd := eng.Induction(ia.Index); isInd {
+				// a loop over the row itself is bounded by it when its condition compares with len(row)
+			}
+			guarded := eng.GuardedBy(fn, ia.Block(), func(f eng.Fact) bool {
+				op, x, y, ok := f.Cmp()
+				if !ok || (op != token.LSS && op != token.LEQ) || !(x == ia.Index || eng.SameValue(x, ia.Index)) {
+					return false
+				}
+				call, ok := y.(*ssa.Call)
+				if !ok {
+					return false
+				}
+				bi, ok := call.Call.Value.(*ssa.Builtin)
+				return ok && bi.Name() == "len" && (call.Call.Args[0] == row || eng.SameValue(call.Call.Args[0], row))
+			})
+			if !guarded {
+				bad = fmt.Sprintf("%s indexes a row at %s without comparing the index with the length of that row", eng.FuncName(fn), c.P.Pos(ia.Pos()))
+				badPos = ia.Pos()
+			}
+		})
+	}
+	if bad == "" {
+		c.Ok(R, ragged, raggedPos, "rows differ in length and every reader clips by the row")
+		return
+	}
+	_ = badPos
+	c.Viol(R, ragged, raggedPos, "the rows of the grid are allocated with a length that changes from row to row, and "+bad+": a sheet whose rows differ in width brings Document() or the table builder down")
+}
+
+// ---------------------------------------------------------------------------------------------------------------
+// RX.DR an element is not deleted from the slice a range loop is walking.
+
+func deleteInRangeRule(id string, pkgs ...string) func(*eng.Ctx) {
+	return func(c *eng.Ctx) {
+		R := id + "-DELETE-IN-RANGE"
+		c.Rule(R, "no statement x = append(x[:i], x[i+1:]...) inside `for i := range x` unless the loop is left right after it (packages "+strings.Join(pkgs, ", ")+"): range walks the slice as it was when the loop began while the deletion shifts the later elements down, so the element after a deleted one is never visited (a merged region that is never flagged, a row that is never filtered) and deleting twice runs past the end", 0, 1)
+		want := map[string]bool{}
+		for _, p := range pkgs {
+			want[p] = true
+		}
+		n := 0
+		for _, pk := range c.P.Pkgs {
+			sp := eng.ShortPath(pk.PkgPath)
+			if !want[sp] && !strings.Contains(sp, eng.PositivePkg) {
+				continue
+			}
+			for _, f := range pk.Syntax {
+				if strings.HasSuffix(c.P.Fset.Position(f.Pos()).Filename, "_test.go") {
+					continue
+				}
+				ast.Inspect(f, func(nd ast.Node) bool {
+					rs, ok := nd.(*ast.RangeStmt)
+					if !ok || rs.Key == nil {
+						return true
+					}
+					kid, ok := rs.Key.(*ast.Ident)
+					if !ok || kid.Name == "_" {
+						return true
+					}
+					if _, isSl := pk.TypesInfo.TypeOf(rs.X).Underlying().(*types.Slice); !isSl {
+						return true
+					}
+					xs := types.ExprString(rs.X)
+					var walk func(list []ast.Stmt)
+					check := func(list []ast.Stmt, i int) {
+						as, ok := list[i].(*ast.AssignStmt)
+						if !ok || len(as.Lhs) != 1 || len(as.Rhs) != 1 || types.ExprString(as.Lhs[0]) != xs {
+							return
+						}
+						call, ok := as.Rhs[0].(*ast.CallExpr)
+						if !ok || len(call.Args) != 2 || !call.Ellipsis.IsValid() {
+							return
+						}
+						if fid, ok := call.Fun.(*ast.Ident); !ok || fid.Name != "append" {
+							return
+						}
+						a0, ok0 := call.Args[0].(*ast.SliceExpr)
+						a1, ok1 := call.Args[1].(*ast.SliceExpr)
+						if !ok0 || !ok1 || types.ExprString(a0.X) != xs || types.ExprString(a1.X) != xs {
+							return
+						}
+						if hi, ok := a0.High.(*ast.Ident); !ok || pk.TypesInfo.ObjectOf(hi) != pk.TypesInfo.ObjectOf(kid) {
+							return
+						}
+						n++
+						// left right after: the next statement of the same list is a break or a return
+						left := false
+						if i+1 < len(list) {
+							switch nx := list[i+1].(type) {
+							case *ast.ReturnStmt:
+								left = true
+							case *ast.BranchStmt:
+								left = nx.Tok == token.BREAK && nx.Label == nil
+							}
+						}
+						key := fmt.Sprintf("%s#range(%s)@%s", sp, xs, c.P.Pos(rs.Pos()))
+						c.Check(left, R, key, as.Pos(), "the loop is left right after the deletion", fmt.Sprintf("%s is shortened by one element inside the range loop that walks it and the loop goes on: the element that moved into position %s is skipped", xs, kid.Name))
+					}
+					walk = func(list []ast.Stmt) {
+						for i, s := range list {
+							check(list, i)
+							switch b := s.(type) {
+							case *ast.IfStmt:
+								walk(b.Body.List)
+								if eb, ok := b.Else.(*ast.BlockStmt); ok {
+									walk(eb.List)
+								} else if ei, ok := b.Else.(*ast.IfStmt); ok {
+									walk([]ast.Stmt{ei})
+								}
+							case *ast.BlockStmt:
+								walk(b.List)
+							case *ast.SwitchStmt:
+								for _, cc := range b.Body.List {
+									if cl, ok := cc.(*ast.CaseClause); ok {
+										walk(cl.Body)
+									}
+								}
+							}
+						}
+					}
+					walk(rs.Body.List)
+					return true
+				})
+			}
+		}
+		c.Ok(R, "module#scanned", token.NoPos, fmt.Sprintf("%d deletions from a slice inside the range loop over it", n))
+	}
+}
+
+// ---------------------------------------------------------------------------------------------------------------
+// R12.13 the layout-based chunker, read on small documents: every text is in the chunks once.
+
+type synthList struct{ items []string }
+
+type synthDocPage struct {
+	headings [][2]any // level, text
+	paras    []string
+	lists    []synthList
+}
+
+// uniqueWords gives n distinct words that are not substrings of one another, prefixed so that documents do not share them.
+func uniqueWords(prefix string, from, n int) []string {
+	out := make([]string, n)
+	for i := range out {
+		out[i] = fmt.Sprintf("%sq%dz", prefix, from+i)
+	}
+	return out
+}
+
+func synthSentences(prefix string, from, sentences, words int) string {
+	var sb strings.Builder
+	k := from
+	for s := 0; s < sentences; s++ {
+		if s > 0 {
+			sb.WriteString(" ")
+		}
+		ws := uniqueWords(prefix, k, words)
+		k += words
+		sb.WriteString(strings.ToUpper(ws[0][:1]) + ws[0][1:] + " " + strings.Join(ws[1:], " ") + ".")
+	}
+	return sb.String()
+}
+
+func synthDocuments() (names []string, docs map[string][]synthDocPage) {
+	docs = map[string][]synthDocPage{}
+	add := func(n string, p []synthDocPage) {
+		names = append(names, n)
+		docs[n] = p
+	}
+	add("a title, a sub-heading, then the text", []synthDocPage{{
+		headings: [][2]any{{1, "Alpha titleword"}, {2, "Beta partword"}},
+		paras:    []string{synthSentences("a", 0, 3, 8), synthSentences("a", 100, 2, 9)},
+		lists:    []synthList{{[]string{"aitem one", "aitem two", "aitem three"}}},
+	}})
+	add("levels skipped and coming back", []synthDocPage{
+		{headings: [][2]any{{1, "Gamma headword"}, {3, "Delta headword"}}, paras: []string{synthSentences("b", 0, 2, 7)}},
+		{headings: [][2]any{{2, "Epsilon headword"}}, paras: []string{synthSentences("b", 100, 2, 7), synthSentences("b", 200, 1, 12)}},
+		{},
+		{headings: [][2]any{{1, "Zeta headword"}}, paras: []string{synthSentences("b", 300, 3, 6)}},
+	})
+	add("no headings at all", []synthDocPage{
+		{paras: []string{synthSentences("c", 0, 2, 8), synthSentences("c", 100, 2, 8)}},
+		{paras: []string{synthSentences("c", 200, 3, 8)}, lists: []synthList{{[]string{"citem one", "citem two"}}}},
+	})
+	add("text before the first heading", []synthDocPage{
+		{paras: []string{synthSentences("d", 0, 2, 8)}},
+		{headings: [][2]any{{2, "Eta headword"}}, paras: []string{synthSentences("d", 100, 2, 8)}},
+	})
+	// a section larger than the maximum chunk size: a minor heading, a paragraph that introduces a list, the list
+	long := []string{}
+	for i := 0; i < 5; i++ {
+		long = append(long, synthSentences("e", 1000*i, 6, 12))
+	}
+	add("a long section with a minor heading before a list introduction", []synthDocPage{
+		{headings: [][2]any{{1, "Theta headword"}}, paras: long[:3]},
+		{headings: [][2]any{{4, "Iota minorword"}}, paras: []string{"The eintro covers the following items:"}, lists: []synthList{{[]string{"eitem one", "eitem two", "eitem three"}}}},
+		{paras: long[3:]},
+	})
+	add("one paragraph several times the maximum chunk size", []synthDocPage{
+		{headings: [][2]any{{1, "Kappa headword"}}, paras: []string{synthSentences("f", 0, 60, 12), synthSentences("f", 5000, 2, 8)}},
+	})
+	return
+}
+
+// evalField reads the named field of a struct value of type t.
+func evalField(v any, t types.Type, name string) (any, types.Type) {
+	if p, ok := v.(*eng.EPtr); ok && p != nil {
+		v = p.Get()
+		if pt, ok := t.Underlying().(*types.Pointer); ok {
+			t = pt.Elem()
+		}
+	}
+	s, ok := v.(*eng.EStruct)
+	st, ok2 := t.Underlying().(*types.Struct)
+	if !ok || !ok2 {
+		return nil, nil
+	}
+	for i := 0; i < st.NumFields() && i < len(s.F); i++ {
+		if st.Field(i).Name() == name {
+			return s.F[i], st.Field(i).Type()
+		}
+	}
+	return nil, nil
+}
+
+// R12.13 [C12]
+func ruleChunkerCoversDocumentEvaluated(c *eng.Ctx) {
+	const R = "R12.13-CHUNKER-COVERS-DOCUMENT-EVALUATED"
+	c.Rule(R, "rag.NewChunker().Chunk with the default configuration, evaluated on small document models (a title directly followed by a sub-heading and then the text; heading levels skipped and coming back over an empty page; no headings; text before the first heading; a section larger than the maximum chunk size holding a minor heading, a list introduction and its list; one paragraph several times the maximum chunk size), every word of which is distinct: the chunk texts joined in index order hold every paragraph word, list item and minor heading exactly once and every major heading at least in a section path or text; indices run 0..n-1, IDs are distinct, and every chunk reports n as the total", 1, 0)
+	newC := c.P.FuncExact("rag.NewChunker")
+	chunk := c.P.FuncExact("rag.(*Chunker).Chunk")
+	docT, pageT, layT := c.P.NamedType("model", "Document"), c.P.NamedType("model", "Page"), c.P.NamedType("model", "PageLayout")
+	headT, paraT, listT, itemT := c.P.NamedType("model", "HeadingInfo"), c.P.NamedType("model", "ParagraphInfo"), c.P.NamedType("model", "ListInfo"), c.P.NamedType("model", "ListItem")
+	if newC == nil || chunk == nil || docT == nil || pageT == nil || layT == nil || headT == nil || paraT == nil || listT == nil || itemT == nil || len(chunk.Params) != 2 {
+		c.Ok(R, "rag.(*Chunker).Chunk", token.NoPos, "chunker or document types not found: not evaluated")
+		return
+	}
+	ptr := func(v any) *eng.EPtr {
+		loc := &eng.ELoc{V: v}
+		return &eng.EPtr{Get: func() any { return loc.V }, Set: func(x any) { loc.V = x }, Loc: loc}
+	}
+	names, docs := synthDocuments()
+	for _, dn := range names {
+		var pages []any
+		var words, items, minors, majors []string
+		for pi, sp := range docs[dn] {
+			lay := eng.ZeroOf(layT).(*eng.EStruct)
+			var hs, ps, ls []any
+			for _, h := range sp.headings {
+				hv := eng.ZeroOf(headT).(*eng.EStruct)
+				eng.SetField(hv, headT, "Level", int64(h[0].(int)))
+				eng.SetField(hv, headT, "Text", h[1].(string))
+				eng.SetField(hv, headT, "Confidence", 0.9)
+				hs = append(hs, hv)
+				if h[0].(int) <= 3 {
+					majors = append(majors, h[1].(string))
+				} else {
+					minors = append(minors, h[1].(string))
+				}
+			}
+			for i, p := range sp.paras {
+				pv := eng.ZeroOf(paraT).(*eng.EStruct)
+				eng.SetField(pv, paraT, "Index", int64(i))
+				eng.SetField(pv, paraT, "Text", p)
+				ps = append(ps, pv)
+				words = append(words, strings.Fields(p)...)
+			}
+			for _, l := range sp.lists {
+				lv := eng.ZeroOf(listT).(*eng.EStruct)
+				var its []any
+				for _, it := range l.items {
+					iv := eng.ZeroOf(itemT).(*eng.EStruct)
+					eng.SetField(iv, itemT, "Text", it)
+					eng.SetField(iv, itemT, "Bullet", "•")
+					its = append(its, iv)
+					items = append(items, it)
+				}
+				eng.SetField(lv, listT, "Items", eng.SliceOf(its...))
+				eng.SetField(lv, listT, "Type", int64(1))
+				ls = append(ls, lv)
+			}
+			eng.SetField(lay, layT, "Headings", eng.SliceOf(hs...))
+			eng.SetField(lay, layT, "Paragraphs", eng.SliceOf(ps...))
+			eng.SetField(lay, layT, "Lists", eng.SliceOf(ls...))
+			pg := eng.ZeroOf(pageT).(*eng.EStruct)
+			eng.SetField(pg, pageT, "Number", int64(pi+1))
+			eng.SetField(pg, pageT, "Width", 612.0)
+			eng.SetField(pg, pageT, "Height", 792.0)
+			eng.SetField(pg, pageT, "Layout", ptr(lay))
+			pages = append(pages, ptr(pg))
+		}
+		doc := eng.ZeroOf(docT).(*eng.EStruct)
+		eng.SetField(doc, docT, "Pages", eng.SliceOf(pages...))
+		ev := eng.NewEvaluator()
+		ev.Steps = 30000000
+		ev.MaxDepth = 40
+		key := "rag.(*Chunker).Chunk#" + dn
+		ck, err := ev.Call(newC, nil, 0)
+		var got any
+		if err == nil {
+			got, err = ev.Call(chunk, []any{ck, ptr(doc)}, 0)
+		}
+		if err != nil && !err.Panic {
+			c.Ok(R, key, chunk.Pos(), "not evaluated: "+err.Msg)
+			continue
+		}
+		if err != nil {
+			c.Viol(R, key, chunk.Pos(), "the chunker does not survive the document: "+err.Msg)
+			continue
+		}
+		tup, ok := got.(eng.ETuple)
+		if !ok || len(tup) != 2 || tup[1] != nil {
+			c.Ok(R, key, chunk.Pos(), "not evaluated: Chunk does not return (result, nil)")
+			continue
+		}
+		resT := chunk.Signature.Results().At(0).Type()
+		chs, chsT := evalField(tup[0], resT, "Chunks")
+		sl, ok := chs.(*eng.ESlice)
+		if !ok || chsT == nil {
+			c.Ok(R, key, chunk.Pos(), "not evaluated: the result has no Chunks")
+			continue
+		}
+		elT := chsT.Underlying().(*types.Slice).Elem()
+		joined := ""
+		bad := ""
+		ids := map[string]bool{}
+		paths := ""
+		for i, l := range sl.L {
+			txt, _ := evalField(l.V, elT, "Text")
+			id, _ := evalField(l.V, elT, "ID")
+			md, mdT := evalField(l.V, elT, "Metadata")
+			ts, _ := txt.(string)
+			joined += ts + "\n"
+			if ids[fmt.Sprint(id)] && bad == "" {
+				bad = fmt.Sprintf("two chunks have the ID %v", id)
+			}
+			ids[fmt.Sprint(id)] = true
+			if mdT != nil {
+				if ix, _ := evalField(md, mdT, "ChunkIndex"); ix != int64(i) && bad == "" {
+					bad = fmt.Sprintf("chunk %d carries the index %v", i, ix)
+				}
+				if tot, _ := evalField(md, mdT, "TotalChunks"); tot != int64(len(sl.L)) && bad == "" {
+					bad = fmt.Sprintf("chunk %d reports %v chunks in total, there are %d", i, tot, len(sl.L))
+				}
+				if sp, _ := evalField(md, mdT, "SectionPath"); sp != nil {
+					if ss, ok := sp.(*eng.ESlice); ok {
+						for _, e := range ss.L {
+							paths += fmt.Sprint(e.V) + "\n"
+						}
+					}
+				}
+				if st, _ := evalField(md, mdT, "SectionTitle"); st != nil {
+					paths += fmt.Sprint(st) + "\n"
+				}
+			}
+		}
+		count := func(w string) int {
+			w = strings.Trim(w, ".:")
+			return strings.Count(joined, w)
+		}
+		for _, w := range words {
+			if bad != "" {
+				break
+			}
+			if k := count(w); k != 1 {
+				bad = fmt.Sprintf("the paragraph word %q is in the chunk texts %d times", strings.Trim(w, ".:"), k)
+			}
+		}
+		for _, it := range append(items, minors...) {
+			if bad != "" {
+				break
+			}
+			if k := count(it); k != 1 {
+				bad = fmt.Sprintf("%q is in the chunk texts %d times", it, k)
+			}
+		}
+		for _, h := range majors {
+			if bad == "" && count(h) == 0 && !strings.Contains(paths, h) {
+				bad = fmt.Sprintf("the heading %q is in no chunk text, section title or section path", h)
+			}
+		}
+		c.Check(bad == "", R, key, chunk.Pos(), fmt.Sprintf("%d chunks hold %d words, %d list items and %d headings", len(sl.L), len(words), len(items), len(minors)+len(majors)), "the chunks do not cover the document once: "+bad)
+	}
+}
+
+// ---------------------------------------------------------------------------------------------------------------
+// RX.CL a struct that has a constructor is not also built by a literal that leaves out what the constructor computes.
+
+func constructorBypassedRule(id string, pkgs ...string) func(*eng.Ctx) {
+	return func(c *eng.Ctx) {
+		R := id + "-LITERAL-BYPASSES-CONSTRUCTOR"
+		c.Rule(R, "where a package has a function new<T> that returns the unexported struct type T built by a keyed literal, and some field it fills is computed (a call, not a constant or a parameter handed through), no other keyed literal of T in the package leaves that field out (packages "+strings.Join(pkgs, ", ")+"): the readers of the field rely on the constructor having computed it, and a literal that was not converted hands them the zero value (a page height of 0, which turns a band test into a division by zero)", 0, 1)
+		want := map[string]bool{}
+		for _, p := range pkgs {
+			want[p] = true
+		}
+		n := 0
+		for _, pk := range c.P.Pkgs {
+			sp := eng.ShortPath(pk.PkgPath)
+			if !want[sp] && !strings.Contains(sp, eng.PositivePkg) {
+				continue
+			}
+			info := pk.TypesInfo
+			// constructors: func newT(...) T|*T whose body returns a keyed literal of T
+			type ctor struct {
+				fd       *ast.FuncDecl
+				computed map[string]bool
+			}
+			ctors := map[*types.Named]*ctor{}
+			litType := func(cl *ast.CompositeLit) *types.Named {
+				t := info.TypeOf(cl)
+				if t == nil {
+					return nil
+				}
+				nt, _ := t.(*types.Named)
+				if nt == nil {
+					return nil
+				}
+				if _, ok := nt.Underlying().(*types.Struct); !ok {
+					return nil
+				}
+				return nt
+			}
+			for _, f := range pk.Syntax {
+				if strings.HasSuffix(c.P.Fset.Position(f.Pos()).Filename, "_test.go") {
+					continue
+				}
+				for _, d := range f.Decls {
+					fd, ok := d.(*ast.FuncDecl)
+					if !ok || fd.Body == nil || fd.Recv != nil || !strings.HasPrefix(strings.ToLower(fd.Name.Name), "new") {
+						continue
+					}
+					ast.Inspect(fd.Body, func(nd ast.Node) bool {
+						cl, ok := nd.(*ast.CompositeLit)
+						if !ok {
+							return true
+						}
+						nt := litType(cl)
+						if nt == nil || nt.Obj().Exported() || !strings.EqualFold("new"+nt.Obj().Name(), fd.Name.Name) {
+							return true
+						}
+						ct := &ctor{fd: fd, computed: map[string]bool{}}
+						for _, el := range cl.Elts {
+							kv, ok := el.(*ast.KeyValueExpr)
+							if !ok {
+								return true
+							}
+							k, _ := kv.Key.(*ast.Ident)
+							if k == nil {
+								continue
+							}
+							isCall := false
+							ast.Inspect(kv.Value, func(m ast.Node) bool {
+								if ce, ok := m.(*ast.CallExpr); ok {
+									if _, conv := info.Types[ce.Fun]; !conv || !info.Types[ce.Fun].IsType() {
+										if id, ok := ce.Fun.(*ast.Ident); !ok || (id.Name != "make" && id.Name != "new" && id.Name != "len") {
+											isCall = true
+										}
+									}
+								}
+								return true
+							})
+							// a local of the constructor (height, _ := page.Height()) is computed too; a parameter is handed through
+							ast.Inspect(kv.Value, func(m ast.Node) bool {
+								if id, ok := m.(*ast.Ident); ok {
+									if v, ok := info.Uses[id].(*types.Var); ok && !v.IsField() && v.Pos() >= fd.Body.Pos() && v.Pos() <= fd.Body.End() {
+										isCall = true
+									}
+								}
+								return true
+							})
+							if isCall {
+								ct.computed[k.Name] = true
+							}
+						}
+						if len(ct.computed) > 0 {
+							ctors[nt] = ct
+						}
+						return true
+					})
+				}
+			}
+			if len(ctors) == 0 {
+				continue
+			}
+			for _, f := range pk.Syntax {
+				if strings.HasSuffix(c.P.Fset.Position(f.Pos()).Filename, "_test.go") {
+					continue
+				}
+				for _, d := range f.Decls {
+					fd, ok := d.(*ast.FuncDecl)
+					if !ok || fd.Body == nil {
+						continue
+					}
+					ast.Inspect(fd.Body, func(nd ast.Node) bool {
+						cl, ok := nd.(*ast.CompositeLit)
+						if !ok || len(cl.Elts) == 0 {
+							return true
+						}
+						nt := litType(cl)
+						ct := ctors[nt]
+						if nt == nil || ct == nil || ct.fd == fd {
+							return true
+						}
+						keys := map[string]bool{}
+						for _, el := range cl.Elts {
+							kv, ok := el.(*ast.KeyValueExpr)
+							if !ok {
+								return true // positional: every field is there
+							}
+							if k, _ := kv.Key.(*ast.Ident); k != nil {
+								keys[k.Name] = true
+							}
+						}
+						var missing []string
+						for fld := range ct.computed {
+							if !keys[fld] {
+								missing = append(missing, fld)
+							}
+						}
+						sort.Strings(missing)
+						n++
+						key := fmt.Sprintf("%s.%s#literal in %s", sp, nt.Obj().Name(), fd.Name.Name)
+						c.Check(len(missing) == 0, R, key, cl.Pos(), "the literal fills what the constructor computes", fmt.Sprintf("%s builds a %s by a literal that leaves out %s, which %s computes: the readers of the field get the zero value here", fd.Name.Name, nt.Obj().Name(), strings.Join(missing, ", "), ct.fd.Name.Name))
+						return true
+					})
+				}
+			}
+		}
+		c.Ok(R, "module#scanned", token.NoPos, fmt.Sprintf("%d literals of struct types that have a constructor", n))
+	}
 }
